@@ -28,11 +28,11 @@ binding:  (a) spec -> code: TLC emits one CASE line per pattern list (expected r
               real code and the recorded histories are validated by TLC (TraceGlob); corrupted controls
               must be rejected.
 negative controls at specification level (each makes TLC report the named violation; thorough re-runs all,
-quick four of them): Discipline="prefix" (re.match, the defect repaired by ae99ec4) and
+quick three of them): Discipline="prefix" (re.match, the defect repaired by ae99ec4) and
 DotAll=FALSE violate MatchesIffGlob, FindFirst=TRUE violates LastWins, StaleCache=TRUE and
 KeyBeforeTranslate=TRUE (seeded change C16-seedC) violate SameResult, MemoKeyJoined=TRUE with JoinSep =
 LF / blank / none (seeded change C16-seedD) violates OutFaithful, LookupMemo=TRUE violates FindIsLast
-(quick runs prefix, KeyBeforeTranslate, MemoKeyJoined/LF and LookupMemo).
+(quick runs prefix, KeyBeforeTranslate and MemoKeyJoined/LF).
 
 Domain decisions (read off copyright.py and the property's quantifier "patterns over literals, '*', '?',
 escapes and newlines"): the Files field is whitespace-separated, so a pattern that contains whitespace
@@ -61,7 +61,7 @@ from lts import LTS, skey, strip
 
 MANIFEST = dict(
     technique="TLA+ spec (Glob: recursive glob reference + regex-translation/alternation/anchor/match-discipline implementation layer; GlobCache: per-paragraph files_pattern cache machine incl. its error path; GlobMemo: process-wide histories of direct globs_to_re calls) model-checked by TLC over all pattern lists and names up to a bound; expected results for every (pattern list, name) and (document, name) emitted by TLC and replayed into FilesParagraph.matches / parsed paragraphs / find_files_paragraph; recorded histories validated by TLC (TraceGlob)",
-    text="TLC enumerates every list of <= 2 patterns of length <= 2 over {a, b, *, ?, backslash, LF} against every name up to length 2 (thorough, with '/' and '.' added: 1 pattern x <= 3 with names <= 4, 2 x <= 2 with names <= 3, and 2 x <= 3 with names <= 3 over the 4 symbols a * ? backslash) and checks that the model of globs_to_re + fullmatch agrees with the recursive glob reference, that exactly the ill-formed lists raise, and that the find loop returns the last matching paragraph of every document of <= 3 paragraphs; the re.match discipline (defect fixed by ae99ec4), a non-DOTALL dot, first-match-wins and a stale cache are rejected by TLC in every run. The expected results printed by TLC are replayed on the real code through create(), text parsing with multi-line Files fields, Files re-assignment (cache) and find_files_paragraph under literal concretizations chosen to hit re.escape and flags; random Unicode histories are validated by TLC against the reference. One paragraph object is also driven through error-path histories (a query that raised the format error, further queries, Files set to a legal value and back) from the closed cache model, and lists whose joined text coincides (['a\\nb'] vs ['a','b'], blank, no separator, '|') are translated in both orders within the process from the memo model; a cache key stored before translation and a memo keyed by the joined text are rejected by TLC.",
+    text="TLC enumerates every list of <= 2 patterns of length <= 2 over {a, *, ?, backslash, LF} against every name up to length 2 (thorough, with 'b', '/' and '.' added: 1 pattern x <= 3 with names <= 4, 2 x <= 2 with names <= 3, and 2 x <= 3 with names <= 3 over the 4 symbols a * ? backslash) and checks that the model of globs_to_re + fullmatch agrees with the recursive glob reference, that exactly the ill-formed lists raise, and that the find loop returns the last matching paragraph of every document of <= 3 paragraphs; the re.match discipline (defect fixed by ae99ec4), a non-DOTALL dot, first-match-wins and a stale cache are rejected by TLC in every run. The expected results printed by TLC are replayed on the real code through create(), text parsing with multi-line Files fields, Files re-assignment (cache) and find_files_paragraph under literal concretizations chosen to hit re.escape and flags; random Unicode histories are validated by TLC against the reference. One paragraph object is also driven through error-path histories (a query that raised the format error, further queries, Files set to a legal value and back) from the closed cache model, and lists whose joined text coincides (['a\\nb'] vs ['a','b'], blank, no separator, '|') are translated in both orders within the process from the memo model; a cache key stored before translation and a memo keyed by the joined text are rejected by TLC.",
     note="Small-scope: bounds above; concretization of literal symbols is sampled (seeded). Patterns containing whitespace (LF, blanks) are only reachable through globs_to_re(list) and are judged there (globs_to_re(ps).fullmatch(name)). Unspecified: lists with an empty pattern, the empty list, find on documents with an ill-formed paragraph (ValueError or last well-formed match). Trusted: TLC, the 1:1 renaming of literal code points, the projection (bool of matches(), identity index of the returned paragraph).",
     design="5 (C16)")
 
@@ -720,6 +720,7 @@ def rand_script(rng, nops, big=False):
             # globs_to_re called directly: patterns may contain LF / blanks; a list and the list obtained
             # by joining (or splitting) it at a separator, in both orders, within this process
             base = plist() if rng.random() < 0.5 else list(rng.choice(cur))
+            base = base[:rng.randint(2, 4)]         # TLC scans the joined pattern character by character: keep it short
             if len(base) < 2:
                 base = base + [rand_pattern(rng, alpha, 3, False)]
             sep = rng.choice(JOINERS)
@@ -896,7 +897,7 @@ def run(ctx):
     quick = ctx.tier == "quick"
     rng = ctx.rng
     ctx.assumptions += [
-        "bounded: every list of <= 2 patterns x <= 2 symbols x every name <= 2 over {a,b,*,?,\\,LF} (replayed cases and thorough: also '/' and '.')"
+        "bounded: every list of <= 2 patterns x <= 2 symbols x every name <= 2 over {a,*,?,\\,LF} (replayed cases and thorough: also 'b', '/' and '.')"
         + ("" if quick else "; 1 x <= 3 x names <= 4; 2 x <= 2 x names <= 3; 2 x <= 3 x names <= 3 over {a,*,?,\\}")
         + "; documents of <= 3 Files paragraphs",
         "literal symbols are concretized by sampled injective renamings (regex metacharacters, non-ASCII, case pairs)",
@@ -918,8 +919,9 @@ def run(ctx):
     doccfg = "MC_Glob_doc_quick.cfg" if quick else "MC_Glob_doc.cfg"
     jobs += [
         dict(name="doc", module="Glob", cfg=doccfg, workers=W if not quick else 4),
-        dict(name="emit-match", module="Glob", tags={"CASE"}, cfg="MC_Glob_emit.cfg"),
-        dict(name="emit-doc", module="Glob", tags={"DOC"},
+        # emission with several workers: every case is one atomic line, the harness sorts them (determinism)
+        dict(name="emit-match", module="Glob", tags={"CASE"}, cfg="MC_Glob_emit.cfg", workers=3, small=True),
+        dict(name="emit-doc", module="Glob", tags={"DOC"}, workers=3, small=True,
              cfg="MC_Glob_doc_emit.cfg" if quick else cfg_text("MC_Glob_doc_emit.cfg", MaxSyms="5")),
         dict(name="cache", module="GlobCache", cfg="MC_GlobCache.cfg", tags={"EDGE"}),
         dict(name="neg-prefix", module="Glob", cfg=cfg_text(big, Discipline='"prefix"'), expect="MatchesIffGlob"),
@@ -939,7 +941,7 @@ def run(ctx):
     ]
     if quick:       # one run: design check of the small pool and its LTS; fewer negative controls (all in thorough)
         jobs.append(dict(name="emit-memo", module="GlobMemo", cfg="MC_GlobMemo_quick.cfg", tags={"EDGE"}))
-        jobs = [j for j in jobs if j["name"] not in ("neg-nodotall", "neg-findfirst", "neg-stalecache")]
+        jobs = [j for j in jobs if j["name"] not in ("neg-nodotall", "neg-findfirst", "neg-stalecache", "neg-lookupmemo")]
     else:
         jobs += [dict(name="memo", module="GlobMemo", cfg="MC_GlobMemo.cfg"),
                  dict(name="emit-memo", module="GlobMemo", cfg="MC_GlobMemo_emit.cfg", tags={"EDGE"})]
@@ -962,15 +964,15 @@ def run(ctx):
         res = book_jobs(ctx, jobs, exec_jobs(ctx, jobs, 5))
     else:
         # big runs one after the other (W workers each); the single-worker runs in a second lane
-        bigs = [j for j in jobs if j.get("workers", 1) > 1]
-        smalls = [j for j in jobs if j.get("workers", 1) == 1]
+        bigs = [j for j in jobs if j.get("workers", 1) > 1 and not j.get("small")]
+        smalls = [j for j in jobs if j.get("workers", 1) == 1 or j.get("small")]
         with concurrent.futures.ThreadPoolExecutor(2) as ex:
             f1 = ex.submit(exec_jobs, ctx, bigs, 1)
             f2 = ex.submit(exec_jobs, ctx, smalls, 2)
             r1, r2 = f1.result(), f2.result()
         res = book_jobs(ctx, bigs + smalls, r1 + r2)
     t_tlc = time.time()
-    ctx.extra["constants"] = {"alphabet": "a b / . * ? \\ LF (quick design check without '/' and '.', which are plain literals in the model)", "quick": "2 patterns x 2, names 2",
+    ctx.extra["constants"] = {"alphabet": "a b / . * ? \\ LF (quick design check without 'b', '/' and '.', which are plain literals in the model)", "quick": "2 patterns x 2, names 2",
                               "thorough": "a: 1x3/names 4; b: 2x2/names 3; c: 2x3/names 3 over a * ? \\",
                               "documents": "<= 3 paragraphs, <= 2 patterns, <= 3 (thorough 4) symbols"}
 
@@ -995,8 +997,9 @@ def run(ctx):
     n_size, n_huge, max_huge = [0], [0], (4 if quick else 40)
     for ename, names in (emissions if "match" in LEGS else []):
         cases = res[ename].printed.get("CASE", [])
-        if not cases:
-            raise core.MachineryError("no CASE lines from %s" % ename)
+        if not cases or not all(isinstance(x, dict) and "ps" in x for x in cases):
+            raise core.MachineryError("no / garbled CASE lines from %s" % ename)
+        cases.sort(key=lambda x: (len(x["ps"]), sum(len(p) for p in x["ps"]), x["ps"]))
         for idx, cse in enumerate(cases):
             if nviol[0] >= 5:
                 break
@@ -1086,8 +1089,9 @@ def run(ctx):
     t_match = time.time()
     # ---- 3. spec -> code: documents, expected paragraph index for every name
     docs = res["emit-doc"].printed.get("DOC", [])
-    if not docs:
-        raise core.MachineryError("no DOC lines")
+    if not docs or not all(isinstance(x, dict) and "doc" in x for x in docs):
+        raise core.MachineryError("no / garbled DOC lines")
+    docs.sort(key=lambda x: (len(x["doc"]), sum(len(ps) for ps in x["doc"]), x["doc"]))
     n_docs = n_finds = 0
     doc_size_every = 25 if quick else 8
     n_bigdoc, n_kdoc, max_kdoc = [0], [0], (2 if quick else 12)
@@ -1361,7 +1365,7 @@ def run(ctx):
 
     t_cache = time.time()
     # ---- 5. code -> spec: recorded histories validated by TLC
-    ntr, nops = (260, 18) if quick else (4000, 30)
+    ntr, nops = (220, 18) if quick else (4000, 30)
     big_every = 20 if quick else 12
     traces = []
     skipped = 0
